@@ -129,9 +129,44 @@ def outcome(fn) -> dict:
                 "site": raise_site(e)}
 
 
+_CLOCK = False
+
+
+def install_clock() -> None:
+    """Replace the clock the built-in `now` / `today` objects read by a fixed one whose
+    values print as @now@ / @today@ (what the model writes for them)."""
+    global _CLOCK
+    if _CLOCK:
+        return
+    import liquid2.context as lc
+
+    class _Stamp:
+        def __init__(self, s):
+            self.s = s
+
+        def __str__(self):
+            return self.s
+
+    class _FakeDateTimeModule:
+        class datetime:  # noqa: N801
+            @staticmethod
+            def now():
+                return _Stamp("@now@")
+
+        class date:  # noqa: N801
+            @staticmethod
+            def today():
+                return _Stamp("@today@")
+
+    lc.datetime = _FakeDateTimeModule
+    _CLOCK = True
+
+
 def render_record(rec: dict, *, mode: str = "sync") -> tuple[dict, dict]:
     """Render a record; returns (outcome, extras)."""
     from liquid2 import DictLoader
+
+    install_clock()
 
     cfg = rec["cfg"]
     templates = {conc(n): conc(t) for n, t in rec["templates"]}
